@@ -104,3 +104,15 @@ func VerifC05_BatchAddPlain()          { VerifC06_AddPlain() }
 func VerifC05_BatchRemoveEntitiesRel() { VerifC06_RemoveEntitiesRel() }
 func VerifC05_BatchSetRelations()      { VerifC06_SetRelations() }
 func VerifC05_BatchExchangeRelation()  { VerifC06_ExchangeRelation() }
+
+// C03: queries in worlds that went through a Reset
+func VerifC03_AfterReset() { VerifC16_WorldResetRel() }
+
+// C04: the Shrink-freed table is recycled for another target
+func VerifC04_RecycleAfterShrinkFreedTable() { VerifC15_RecycleAfterShrinkFreedTable() }
+func VerifC15_RecycleAfterArchetypeMove()    { VerifC04_RecycleAfterArchetypeMove() }
+
+// C11: component data (also the payload of relation components) is unchanged by single-entity moves
+func VerifC11_RelSetRelations() { VerifC04_RelSetRelations() }
+func VerifC11_RelCopy()         { VerifC01_RelCopy() }
+func VerifC11_RelExchange()     { VerifC01_RelExchange() }
